@@ -216,6 +216,12 @@ class Gen:
     for _ in range(n):
       self.tok += 1
       toks.append(f"k{self.tok}")
+      if self.p.get("p_markup", 0) and rng.random() < self.p["p_markup"]:
+        special = rng.choice(["&", "<", ">", "R&D", "1<2", "x>y", "&amp;", "<c>", "&lt;", "a<z>c"] + (["-->", "a-->b"] if self.p.get("arrow") else []))
+        toks[-1] += special
+        self.classes.add("markup-chars")
+        if "-->" in special:
+          self.classes.add("arrow-in-text")
     if rng.random() < self.p["p_ws"]:
       seps = [" ", "  ", "\t", "\n", " \n ", "   "]
       s = rng.choice(["", " ", "\n", "  "]) + rng.choice(seps).join(toks) + rng.choice(["", " ", "\n ", "  "])
